@@ -339,6 +339,8 @@ def history_keys(spec, answers=None, notas=("dep", "phrase")):
             continue
         for mode in HISTORY_MODES:
             h = realize_history(spec, nota, mode)
+            if h is not None:
+                _state["histories"] = _state.get("histories", 0) + 1
             if h is not None and h != base:
                 res.add(("history", mode, nota))
     return res
@@ -1112,13 +1114,14 @@ def c05_keys(spec, answers=None, notas=("dep", "phrase"), cross=False):
             res.add((cl, det, nota))
     if cross:
         res |= cross_keys(spec, answers, notas)
+        res |= history_keys(spec, answers, notas)
     return res
 
 
 def c05_signature(spec, clause, detail, nota):
     """shrinks `spec` keeping the same violated clause/detail in notation `nota`; the signature names the notations in
     which the shrunk specification fails that way"""
-    cross = clause == "cross_language"
+    cross = clause in ("cross_language", "history")
 
     def fails(sp):
         return (clause, detail, nota) in c05_keys(sp, notas=(nota,), cross=cross)
@@ -1606,7 +1609,10 @@ def _worker(args):
         bump("subj:" + ("none" if sp["subj"] is None else sp["subj"]["k"]))
         if "c05" in want:
             res["dist"]["cross_language_realizations"] = res["dist"].get("cross_language_realizations", 0) + 2 * len(CROSS_MODES)
-            for (cl, det, notas) in c05_keys(sp, answers, cross=True):
+            h0 = _state.get("histories", 0)
+            keys = c05_keys(sp, answers, cross=True)
+            res["dist"]["histories_compared"] = res["dist"].get("histories_compared", 0) + _state.get("histories", 0) - h0
+            for (cl, det, notas) in keys:
                 extra = ""
                 if cl == "clitic_order" and ">" in det:
                     extra = ":input-" + ("canonical" if input_order_canonical(sp) else "shuffled")
@@ -1698,6 +1704,8 @@ def report_c05(ctx, merged):
             texts = {n: realize(small, n, both=False).get("text") for n in notas.split("+")}
             if cl == "cross_language":
                 texts = {"french-current": texts, "english-current": {n: realize_cross(small, n, base) for n in notas.split("+")}}
+            if cl == "history":
+                texts = {"single-shot": texts, "after-realizing-the-flag-less-clause": {n: realize_history(small, n, base) for n in notas.split("+")}}
             ctx.fail(sig, {"op": "clause", "spec": small, "notas": notas, "clause": cl, "detail": base},
                      {"violates": cl, "detail": base, "got": texts, "failing_inputs_in_run": cnt})
             table[sig] = table.get(sig, 0) + cnt
